@@ -50,7 +50,8 @@ def gen_case(seed):
         # coefficients with no, one or two symbolic factors (a product of several symbols must survive as a whole)
         sym = rng.choice([[], [], [k], [k], [0, 1]])
         rules.append({'from': rng.choice(units[s][:3]), 'to': rng.choice(units[t][:3]), 'div': div,
-                      'kq': rng.choice(['12', '1.1', '0.5', '2', '96', '1', '1']), 'ksym': sym, 'kunit': ('get', 0, kname)})
+                      'kq': rng.choice(['12', '1.1', '0.5', '2', '96', '1', '1', '-1', '-2.5']), 'ksym': sym,
+                      'kunit': ('get', 0, kname)})
     dim_pairs = [('X', 'Y'), ('Y', 'X'), ('X', 'Z'), ('Y', 'Z'), ('Z', 'X'), ('X', 'X'), ('Y', 'Y')]
     if rng.random() < 0.4:
         # a generic rule function ("multiply by K") registered for a second pair of dimensions P = X*W -> Q = Y*W as the
@@ -256,7 +257,7 @@ def convert_variable_case(seed):
     dst = us.add_unit('dst', 'ampere / farad')
     alt = us.add_unit('alt', rng.choice(['uA / (metre * 0.001) ** 2', 'ampere / metre ** 2 * 3', 'uA / cm2 * 1000']))
     dalt = us.add_unit('dalt', rng.choice(['uA / uF', 'ampere / farad * 1e-3', 'ampere / uF']))
-    kval = rng.choice([1.1, 2.0, 0.25])
+    kval = rng.choice([1.1, 2.0, 0.25, -1.0, -8.0, 1e-3, 4000.0])
     Cs = us.Quantity(kval, us.get_unit('uF') / cm2)
     us.add_conversion_rule(src, dst, lambda ureg, rhs: rhs / Cs)
     t = m.add_variable('t', 'second')
@@ -266,6 +267,20 @@ def convert_variable_case(seed):
     m.add_equation(sympy.Eq(i, m.create_quantity(3.0, alt) * x))
     direction = rng.choice([M.DataDirectionFlow.OUTPUT, M.DataDirectionFlow.INPUT])
     want_cf = us.convert(us.Quantity(1.0, alt), dalt).magnitude
+    if rng.random() < 0.5:
+        # a STATE variable (it has an initial value) converted across the one-way rule, in either direction
+        j = m.add_variable('j', alt, initial_value=rng.choice([1.3, -40.0, 2e-4]))
+        m.add_equation(sympy.Eq(sympy.Derivative(j, t), m.create_quantity(1.0, alt / us.get_unit('second'))))
+        j0 = j.initial_value
+        try:
+            newj = m.convert_variable(j, dalt, direction)
+        except Exception as e:
+            return bad + [('convert_variable of a state variable across a registered rule (%s) raises %r' % (direction, e), {'seed': seed})]
+        if direction == M.DataDirectionFlow.INPUT:
+            if newj.initial_value is None or not math.isclose(newj.initial_value, j0 * float(want_cf), rel_tol=1e-9):
+                bad.append(('INPUT conversion of a state across a rule: new initial value %r, expected %r'
+                            % (newj.initial_value, j0 * float(want_cf)), {'seed': seed}))
+        return bad
     direct = us.convert(us.Quantity(1.0, src), dst).magnitude * float(us.get_conversion_factor(alt, src)) * float(us.get_conversion_factor(dst, dalt))
     if not math.isclose(float(want_cf), float(direct), rel_tol=1e-9):
         bad.append(('rule result depends on the units used (convert vs factors): %r vs %r' % (want_cf, direct), {'seed': seed}))
